@@ -178,9 +178,10 @@ unsafe impl Sync for PlatformShmem {}
 /// Lock file for writer exclusion.
 ///
 /// Uses `flock(LOCK_EX | LOCK_NB)` with a retry loop and timeout.
-/// The lock file is created next to the shmem file with a `.lock` suffix.
+/// The lock file is created next to the shmem file with a `.lock` suffix
+/// and removed on release.
 pub struct LockFile {
-    /// The lock file handle (kept open to hold the lock).
+    /// The lock file handle (kept open to hold the `flock`).
     _file: File,
     /// Path to the lock file.
     path: PathBuf,
@@ -208,19 +209,14 @@ impl LockFile {
         let start = Instant::now();
 
         loop {
-            // Try to create with exclusive access
-            match OpenOptions::new()
-                .write(true)
-                .create_new(true)
-                .open(&lock_path)
-            {
-                Ok(file) => {
+            match Self::try_lock(&lock_path) {
+                Ok(Some(file)) => {
                     return Ok(Self {
                         _file: file,
                         path: lock_path,
                     });
                 }
-                Err(e) if e.kind() == std::io::ErrorKind::AlreadyExists => {
+                Ok(None) => {
                     if start.elapsed() >= timeout {
                         return Err(StorageError::SharedMemory(format!(
                             "lock file timeout after {}s: {}",
@@ -240,6 +236,40 @@ impl LockFile {
         }
     }
 
+    /// One attempt: open (creating) the lock file and take `flock(LOCK_EX | LOCK_NB)`.
+    ///
+    /// `Ok(None)` means somebody else holds the lock. The kernel drops the lock
+    /// when its holder dies, so a crashed process never blocks the others.
+    #[allow(unsafe_code)]
+    fn try_lock(lock_path: &Path) -> std::io::Result<Option<File>> {
+        use std::os::unix::fs::MetadataExt;
+        use std::os::unix::io::AsRawFd;
+
+        let file = OpenOptions::new()
+            .write(true)
+            .create(true)
+            .truncate(false)
+            .open(lock_path)?;
+
+        if unsafe { libc::flock(file.as_raw_fd(), libc::LOCK_EX | libc::LOCK_NB) } == -1 {
+            let err = std::io::Error::last_os_error();
+            return match err.kind() {
+                std::io::ErrorKind::WouldBlock | std::io::ErrorKind::Interrupted => Ok(None),
+                _ => Err(err),
+            };
+        }
+
+        // The holder unlinks the file when it releases the lock: the file locked
+        // here may no longer be the one at the path. Only the current one counts.
+        let mine = file.metadata()?;
+        match std::fs::metadata(lock_path) {
+            Ok(current) if current.ino() == mine.ino() && current.dev() == mine.dev() => {
+                Ok(Some(file))
+            }
+            _ => Ok(None),
+        }
+    }
+
     /// Get the lock file path.
     pub fn path(&self) -> &Path {
         &self.path
@@ -248,7 +278,8 @@ impl LockFile {
 
 impl Drop for LockFile {
     fn drop(&mut self) {
-        // Remove the lock file on drop to release the lock.
+        // Remove the lock file while the lock is still held; closing the handle
+        // afterwards releases the lock.
         let _ = std::fs::remove_file(&self.path);
     }
 }
